@@ -122,6 +122,84 @@ def dupsort_lookups(ctx, b):
                     {"kind": "trace", "trace": ex, "line": line})
 
 
+def wide_seeks(ctx, b):
+    """seek histories on mergers over 7..12 sources (mostly in memory) whose first keys arrive in arbitrary order: every seek that
+    re-seeks all sources rebuilds the heap over that many live sources"""
+    rng = ctx.rng
+    allrecs = []
+    for t in range(40 if ctx.quick() else 600):
+        wd = ctx.sub("ws")
+        nsrc = rng.choice([7, 7, 8, 9, 12])
+        universe = [bytes([0x41 + i]) for i in range(26)] + [bytes([0x61 + i, 0x61 + j]) for i in range(3) for j in range(4)]
+        fam, tok = [], 1
+        for f in rng.sample(universe, nsrc):
+            ks = sorted(set([f] + rng.sample(universe, rng.choice([1, 2, 3]))))
+            fam.append([(k, [tok + i]) for i, k in enumerate(ks)])
+            tok += len(ks)
+        merge, dupsort = rng.choice(M.MODES)
+        variant = "user" if t % 4 else rng.choice(["readers", "mixed"])
+        L = M.setup_lines(wd, fam, variant, merge, dupsort)
+        keys = sorted(set(k for src in fam for k, _ in src))
+        cand = sorted(set(keys) | set(k + b"!" for k in keys[::3]) | {b""})
+        kind = rng.choice(["iter", "iter", "range", "prefix"])
+        bd = (kind, b"" if kind != "range" else rng.choice(cand[:4]), b"" if kind != "range" else rng.choice(cand[-4:]))
+        L.append(gen.open_line(1, "m:0", bd))
+        lo = bd[1]
+        for _ in range(rng.choice([6, 12, 20])):
+            x = rng.random()
+            if x < 0.45:
+                L.append("it_next 1 %d" % rng.choice([1, 1, 2, 5]))
+            else:
+                L.append("it_seek 1 %s" % shapes.hexs(rng.choice([c for c in cand if c >= lo])))
+        L += ["it_destroy 1"] + M.teardown_lines(fam, variant)
+        recs, rc, err = M.run_script(ctx, b, wd, L, "ws")
+        ctx.add("wide_seek_histories", 1)
+        if rc != 0:
+            core.report(ctx, "driver ended abnormally (rc=%s): %s" % (rc, err[-1500:]), {"kind": "script", "script": L[:200], "stderr": err[-3000:]})
+            continue
+        allrecs += recs
+    for ex, line in core.validate_batch(ctx, allrecs, "ws"):
+        core.report(ctx, "seek history on a merger over many sources not explained by the merged table at trace line %d: %s" % (line, json.dumps(ex[line - 1])[:300]),
+                    {"kind": "trace", "trace": ex, "line": line})
+
+
+def heap_orders(ctx, b):
+    """the heap rebuilt by a seek over 7 live sources, for the orders in which their heads can stand in the array: every source
+    holds two keys, the first seek on a fresh iterator (target below every key) re-seeks all of them; thorough: all 5040 orders of
+    7 heads (both tiers) and, thorough, a sample for 8..10 sources"""
+    import itertools
+    rng = ctx.rng
+    base = [bytes([0x42 + 2 * i]) for i in range(10)]
+    perms = list(itertools.permutations(range(7)))
+    # every source: its head, and a second key above all heads (a popped head is replaced by a key that sinks to the bottom, so the
+    # array order of the remaining heads decides what comes out next)
+    fams = [[[(base[i], [1 + 2 * j]), (b"z" + base[i], [2 + 2 * j])] for j, i in enumerate(p)] for p in perms]
+    if not ctx.quick():
+        for _ in range(3000):
+            n = rng.choice([8, 9, 10])
+            p = rng.sample(range(10), n)
+            fams.append([[(base[i], [1 + 2 * j]), (b"z" + base[i], [2 + 2 * j])] for j, i in enumerate(p)])
+    allrecs = []
+    wd = ctx.sub("ho")
+    for t, fam in enumerate(fams):
+        L = M.setup_lines(wd, fam, "user", 0, 0)
+        L += ["it_iter 1 m:0", "it_seek 1 41", "it_drain 1", "it_destroy 1"] + M.teardown_lines(fam, "user")
+        recs, rc, err = M.run_script(ctx, b, wd, L, "ho")
+        ctx.add("heap_order_histories", 1)
+        if rc != 0:
+            core.report(ctx, "driver ended abnormally (rc=%s): %s" % (rc, err[-1500:]), {"kind": "script", "script": L[:200], "stderr": err[-3000:]})
+            continue
+        allrecs += recs
+        if len(allrecs) > 40000:
+            for ex, line in core.validate_batch(ctx, allrecs, "ho%d" % t):
+                core.report(ctx, "seek on a merger over 7+ sources (heads in a particular array order) not explained by the merged table at trace line %d: %s" % (line, json.dumps(ex[line - 1])[:300]),
+                            {"kind": "trace", "trace": ex, "line": line})
+            allrecs = []
+    for ex, line in core.validate_batch(ctx, allrecs, "ho"):
+        core.report(ctx, "seek on a merger over 7+ sources (heads in a particular array order) not explained by the merged table at trace line %d: %s" % (line, json.dumps(ex[line - 1])[:300]),
+                    {"kind": "trace", "trace": ex, "line": line})
+
+
 def regressions(ctx):
     rng = ctx.rng
     wd = ctx.sub("regr")
@@ -149,6 +227,8 @@ def run(ctx):
         graph_family(ctx, b, n, fam, merge, dupsort, variants[(n // 4) % 4] if n >= 4 else "readers")
     regressions(ctx)
     dupsort_lookups(ctx, b)
+    wide_seeks(ctx, b)
+    heap_orders(ctx, b)
     random_histories(ctx, b)
     cov = {"states": ctx.cov.get("states", 0), "transitions": ctx.cov.get("transitions", 0),
            "traces_validated_against_impl": ctx.cov.get("traces_validated_against_impl", 0),
